@@ -206,7 +206,7 @@ def oracle(res, circuit, anchors, key_prefix, inp):
         res.violation(f"{key_prefix}:emission-constraint", "no photon-photon two-qubit op; first op of a photon is its Fixed emitter-controlled CNOT; later only one-qubit gates / classically controlled targets", input=inp, impl=probs[:5])
         return False
     if anchors is not None:
-        now = wu.fixed_anchor(circuit)
+        now = wu.fixed_anchor(circuit, initial=True)
         lost = {n: v for n, v in anchors.items() if now.get(n) != v}
         if lost:
             res.violation(f"{key_prefix}:fixed-removed", "Fixed emission CNOTs / measure-and-reset operations are never removed", input=inp, impl=str(lost)[:300])
@@ -314,7 +314,7 @@ def pick_transformation(rng, n_nodes, n_emitter, cap):
 
 def run_history(ctx, res, log, solver, circuit, n_moves, rs, tag, cap=70):
     """apply n_moves random moves to `circuit` (in place), oracle after each, log for the model"""
-    anchors = wu.fixed_anchor(circuit)
+    anchors = wu.fixed_anchor(circuit, initial=True)
     before = wu.snapshot(circuit)
     for step in range(n_moves):
         tname = pick_transformation(ctx.rng, len(before["nodes"]), before["ne"], cap)
@@ -474,11 +474,12 @@ def check_cnot_helpers(res, drv, solver, circuit, tag):
             res.exact_break("cands:" + tname, input={"before": enc, "start": tag}, impl=str(impl)[:600], model=str(model)[:600])
 
 
-def exhaustive_candidates(ctx, res, drv, table, solver, circuit, tag, depth, rs, gates):
+def exhaustive_candidates(ctx, res, drv, table, solver, circuit, tag, depth, rs, gates, anchors=None):
     """script every candidate index of every transformation on copies of `circuit`; candidate sets must agree exactly"""
     before = wu.snapshot(circuit)
     enc = wu.encode(before)
-    anchors = wu.fixed_anchor(circuit)
+    if anchors is None:
+        anchors = wu.fixed_anchor(circuit, initial=True)  # top level: an initial solver circuit
     children = []
     for tname in TRANS:
         r_c = drv.ask(f"evo.cands t={tname} {enc}")
@@ -531,7 +532,7 @@ def exhaustive_candidates(ctx, res, drv, table, solver, circuit, tag, depth, rs,
             res.exact_break("cands:" + tname, input={"before": enc, "t": tname}, impl="duplicate candidates " + str(sorted(seen))[:400], model=str(sorted(model_c))[:400])
     if depth > 1:
         for cp in children:
-            exhaustive_candidates(ctx, res, drv, table, solver, cp, tag + ">", depth - 1, rs, gates[:1])
+            exhaustive_candidates(ctx, res, drv, table, solver, cp, tag + ">", depth - 1, rs, gates[:1], anchors)
 
 
 def check_solver_runs(ctx, res, log, rs):
@@ -558,7 +559,7 @@ def check_solver_runs(ctx, res, log, rs):
         def wrap(f):
             def run(circuit, *a, **kw):
                 before = wu.snapshot(circuit)
-                anchors = state["anchors"].setdefault(id(circuit), wu.fixed_anchor(circuit))
+                anchors = state["anchors"].setdefault(id(circuit), wu.fixed_anchor(circuit, initial=True))
                 mark = len(patch.calls)
                 out = f(circuit, *a, **kw)
                 inp = {"before": wu.encode(before), "t": f.__name__, "start": "solve()"}
@@ -811,11 +812,11 @@ def run(ctx):
         check_initialization(ctx, res, drv, rs)
         log = MoveLog(res, table)
         starts = start_circuits(ctx, res, rs, 6 if ctx.quick else 12)
-        t_budget = 80 if ctx.quick else 700
+        t_budget = 80 if ctx.quick else 540
         t0 = time.time()
         for k, (tag, solver, circ) in enumerate(starts):
             # quick: histories of 200 moves; thorough: two histories of 5000 moves, the others 1000
-            per = 200 if ctx.quick else (5000 if k in (0, len(starts) // 2) else 1000)
+            per = 200 if ctx.quick else (5000 if k in (0, len(starts) // 2) else 600)
             check_cnot_helpers(res, drv, solver, circ, tag)
             ok = run_history(ctx, res, log, solver, circ, per, rs, tag)
             log.flush(drv)
@@ -832,21 +833,30 @@ def run(ctx):
         if not res.violations:
             graphs = [nx.path_graph(2), nx.path_graph(3), nx.complete_graph(3)] if ctx.quick else \
                 [g for n in (2, 3, 4) for g in nx.graph_atlas_g() if g.number_of_nodes() == n and nx.is_connected(g)]
+            t_exh = time.time()
+            budget_exh = 40 if ctx.quick else 420
+            done_exh = 0
             for g in graphs:
+                if time.time() - t_exh > budget_exh:
+                    break
                 try:
                     circ, n_e = trs_circuit(g)
                 except Exception:  # noqa: BLE001
                     continue
                 exhaustive_candidates(ctx, res, drv, table, make_solver(g.number_of_nodes(), n_e), circ, f"trs:{sorted(g.edges())}",
                                       1 if ctx.quick else 2, rs, [0, 5] if ctx.quick else [0, 5, 23])
+                done_exh += 1
             for (n_p, n_e) in ([(2, 1), (2, 2)] if ctx.quick else [(1, 1), (2, 1), (2, 2), (3, 2), (3, 3)]):
                 solver = make_solver(n_p, n_e)
                 for ea in itertools.product(range(n_e), repeat=n_p):
-                    if ea[0] != 0:
+                    if ea[0] != 0 or time.time() - t_exh > budget_exh:
                         continue
                     ma = [ctx.rng.randrange(n_p) for _ in range(n_e)]
                     circ = solver.initialization(list(ea), ma)
                     exhaustive_candidates(ctx, res, drv, table, solver, circ, f"init:{ea}:{ma}", 1 if ctx.quick else 2, rs, [0, 13])
+                    done_exh += 1
+            res.notes.append(f"exhaustive candidate enumeration ({1 if ctx.quick else 2} move(s) deep) completed on {done_exh} initial circuits "
+                             f"({len(graphs)} solver graphs of <= {3 if ctx.quick else 4} vertices planned) within {budget_exh}s")
         if not res.violations:
             check_builds(ctx, res, drv)
         if not res.violations:
